@@ -171,6 +171,13 @@ class Repo:
             m = Module(self, rel, self.read(rel))
             self.modules[m.name] = m
         self._cache = {}
+        # private helpers the analyses have no model for are expanded at their call sites (see normalize.py)
+        from .normalize import normalize_module
+        self.expanded = {}
+        for m in self.modules.values():
+            n = normalize_module(m)
+            if n:
+                self.expanded[m.relpath] = getattr(m, 'expanded_helpers', [])
 
     def has_module(self, name):
         return name in self._modnames
